@@ -4,7 +4,7 @@ import itertools
 import random
 
 NAMES = ["X-A", "x-a", "X-a", "Content-Length", "content-type", "User-Agent", "user-agent"]
-VALUES = [1, "v"]
+VALUES = [1, "v", None, 0, 2.5, True, ""]        # string and non-string values, falsy ones included
 READONLY = ("content-length", "content-type")
 
 
@@ -45,7 +45,7 @@ def dicts():
         for v in VALUES:
             out.append({n: v})
     for a, b in itertools.combinations(NAMES, 2):
-        for va in VALUES:
+        for va in (1, None):
             out.append({a: va, b: "w"})
     return out
 
@@ -101,6 +101,6 @@ def run(tier="quick", seed=0):
         if len(failures) > 20:
             break
     return {"kind": "exhaustive enumeration of header stacks on the real emit_additional_headers/send_content (bounded)",
-            "bound": "all stacks of 0-2 dictionaries (each with at most two of the names %r, int and str values) and %d sampled "
+            "bound": "all stacks of 0-2 dictionaries (each with at most two of the names %r, str, int, float, bool and None values) and %d sampled "
                      "stacks of 3, each with three variants of the inherited extra headers" % (NAMES, 3000 if tier == "quick" else 40000),
             "evaluations": n, "failures": failures}
